@@ -315,6 +315,12 @@ class XMLSchemaConverter(NamespaceMapper):
 
         return elem
 
+    def is_cdata(self, name: str) -> bool:
+        """Returns `True` if the name is a key of a character data section."""
+        return self.cdata_prefix is not None and \
+            name.startswith(self.cdata_prefix) and \
+            name[len(self.cdata_prefix):].isdigit()
+
     def is_xmlns(self, name: str) -> bool:
         """Returns `True` if the name is a xmlns declaration."""
         return name.startswith(self.ns_prefix) and \
@@ -417,7 +423,9 @@ class XMLSchemaConverter(NamespaceMapper):
                 try:
                     result = result_dict[name]
                 except KeyError:
-                    if xsd_child is None or has_single_group and xsd_child.is_single():
+                    if xsd_child is None and self.is_cdata(name):
+                        result_dict[name] = value  # character data is never put in a list
+                    elif xsd_child is None or has_single_group and xsd_child.is_single():
                         result_dict[name] = self.list_class((value,)) if self.force_list else value
                     else:
                         result_dict[name] = self.list_class((value,))
